@@ -367,7 +367,22 @@ def parse_opts(p):
 
 
 def seed_registry(it, p, regs):
-    it.heap[("cls:indi.message.base.IndiMessage", "_message_classes")] = Lst([Cls(c) for c in regs])
+    """The registry as the import of the package leaves it: the decorator is interpreted once per registered class,
+    in import order (no private name of the registry is assumed)."""
+    base = msg_base(p)
+    reg = base.find_method("register_message")
+    if reg is None:
+        raise Undecided("IndiMessage.register_message not found")
+    saved = dict(it.opts)
+    it.opts["inline"] = lambda fi, node: fi is reg
+    n = len(it.events)
+    try:
+        for c in regs:
+            it.run_function(Fn(reg, Cls(base)), [Cls(c)], {})
+    finally:
+        del it.events[n:]
+        it.opts.clear()
+        it.opts.update(saved)
 
 
 def rule_read(ctx):
